@@ -1,39 +1,67 @@
 #!/venv/bin/python
-"""Kernel translator: regenerates coq/Gen/Kernels.v from the *current* source of a
-few leaf Numba kernels in /repo (python ast -> Gallina). Together with the tie
-lemmas in coq/Cxx/Tie.v (generated kernel = hand-written model, for all inputs)
-this re-checks the theorems against what the code says now: an edit of one of
-these kernels changes the generated definition and the tie lemma stops checking.
+"""Kernel translator: regenerates coq/Gen/Kernels.v from the *current* source of
+leaf Numba kernels in /repo (python ast -> Gallina). Together with the tie lemmas
+in coq/Cxx/Tie*.v (generated kernel = hand-written model / satisfies the
+specification, for all inputs) this re-checks theorems against what the code says
+now: an edit of one of these kernels changes the generated definition and the tie
+lemma stops checking.
 
-Supported subset (fail-closed: anything else raises):
-  scalars of type int (-> Z), one element type T with a `Num T` instance for
-  array elements / float scalars, read-only 1-d arrays (-> list),
-  statements: assignment, augmented assignment, if/elif/else, `for v in range(..)`,
-  `while`, `return`, `break`, `continue`, calls to other translated kernels,
-  expressions: + - * // %, comparisons, and/or/not, min/max, len(a), a[i],
-  np.iinfo(np.intp).max.
-Loops become Fixpoints on an explicit fuel argument: for-loops get their own trip
-count; while-loops get the fuel expression given in KERNELS (its adequacy is part
-of the tie lemma). A loop function returns `inl r` when the body executed
-`return r` and `inr (carried variables)` when the loop ended normally.
+Supported subset (fail-closed: anything else makes Kernels.v non-compiling):
+  types  Z (int scalar), B (bool), T (element scalar with a `Num T` instance),
+         LZ / LT (1-d arrays of ints / elements -> list)
+  statements: assignment, augmented assignment, 1-d array stores `a[i] = e`, `a[i] op= e`,
+         if/elif/else, `for v in range(..)`, `while`, `return`, `break`, `continue`
+  expressions: + - * // %, comparisons, and/or/not (short-circuit), min/max, len(a), a[i],
+         True/False, np.iinfo(np.intp).max, calls to previously translated kernels.
+Loops become Fixpoints on explicit fuel: for-loops get their own trip count;
+while-loops get the fuel expression given in KERNELS (its adequacy is part of the tie
+lemma). A loop function returns `inl r` when the body executed `return` and
+`inr (carried variables)` when it ended normally.
+A kernel without `return` value yields the tuple of the arrays it stores into.
+checked=True threads a ghost flag `ok__`: it becomes false as soon as an array read or
+store uses an index outside [0, len) (reads guarded by short-circuit `and`/`or` are
+only counted when evaluated); the kernel then returns (result, ok__).
 """
 import ast, os, sys
 
 REPO = os.environ.get("VERIF_REPO", "/repo")
 OUT = os.path.join(os.path.dirname(os.path.abspath(__file__)), "..", "coq", "Gen", "Kernels.v")
 
-# name -> (file, python function, parameter types, return type, {while-loop ordinal: fuel expr in Coq})
-#   types: 'Z' int scalar, 'T' element scalar, 'LT' list of elements, 'LZ' list of ints
+# (coq name, file, python function, parameter types, return type or None for procedures,
+#  {while-loop ordinal: fuel expr in Coq}, checked)
 KERNELS = [
-    ("comb_jit", "quantecon/util/numba.py", "comb_jit", [("N", "Z"), ("k", "Z")], "Z", {}),
+    ("comb_jit", "quantecon/util/numba.py", "comb_jit", [("N", "Z"), ("k", "Z")], "Z", {}, False),
     ("searchsorted", "quantecon/util/array.py", "searchsorted", [("a", "LT"), ("v", "T")], "Z",
-     {0: "S (length a)"}),
-    ("cartesian_index", "quantecon/_gridtools.py", "_cartesian_index", [("indices", "LZ"), ("nums_grids", "LZ")], "Z", {}),
-    ("k_array_rank_jit", "quantecon/util/combinatorics.py", "k_array_rank_jit", [("a", "LZ")], "Z", {}),
-    ("generate_a_indptr_reads", None, None, None, None, None),  # placeholder slot (not generated)
+     {0: "S (length a)"}, True),
+    ("cartesian_index", "quantecon/_gridtools.py", "_cartesian_index",
+     [("indices", "LZ"), ("nums_grids", "LZ")], "Z", {}, False),
+    ("k_array_rank_jit", "quantecon/util/combinatorics.py", "k_array_rank_jit", [("a", "LZ")], "Z", {}, False),
+    ("next_k_array", "quantecon/util/combinatorics.py", "next_k_array", [("a", "LZ")], "LZ",
+     {0: "length a"}, False),
+    ("generate_a_indptr", "quantecon/markov/utilities.py", "_generate_a_indptr",
+     [("num_states", "Z"), ("s_indices", "LZ"), ("out", "LZ")], None, {0: "S (length s_indices)"}, True),
+    ("has_sorted_sa_indices", "quantecon/markov/utilities.py", "_has_sorted_sa_indices",
+     [("s_indices", "LZ"), ("a_indices", "LZ")], "B", {}, True),
+    ("s_wise_max_argmax", "quantecon/markov/utilities.py", "_s_wise_max_argmax",
+     [("a_indices", "LZ"), ("a_indptr", "LZ"), ("vals", "LT"), ("out_max", "LT"), ("out_argmax", "LZ")],
+     None, {}, True),
+    ("s_wise_max", "quantecon/markov/utilities.py", "_s_wise_max",
+     [("a_indices", "LZ"), ("a_indptr", "LZ"), ("vals", "LT"), ("out_max", "LT")], None, {}, True),
+    ("find_indices", "quantecon/markov/utilities.py", "_find_indices",
+     [("a_indices", "LZ"), ("a_indptr", "LZ"), ("sigma", "LZ"), ("out", "LZ")], None, {}, True),
 ]
-KERNELS = [k for k in KERNELS if k[1] is not None]
-CALLABLE = {"comb_jit": ("comb_jit", "Z")}
+CALLABLE = {}
+COQTY = {"Z": "Z", "T": "T", "B": "bool", "LT": "list T", "LZ": "list Z"}
+
+PRELUDE = """(* helpers used by the generated code *)
+Fixpoint upd_nth {A} (l : list A) (i : nat) (v : A) : list A :=
+  match l, i with
+  | [], _ => []
+  | _ :: r, O => v :: r
+  | x :: r, S i' => x :: upd_nth r i' v
+  end.
+Definition inb {A} (i : Z) (l : list A) : bool := (0 <=? i) && (i <? Z.of_nat (length l)).
+"""
 
 
 class Unsupported(Exception):
@@ -53,33 +81,44 @@ def strip_doc(body):
     return body
 
 
+def is_cond(e):
+    return isinstance(e, (ast.BoolOp, ast.Compare)) or (isinstance(e, ast.UnaryOp) and isinstance(e.op, ast.Not)) \
+        or (isinstance(e, ast.Constant) and isinstance(e.value, bool))
+
+
 class Tr:
-    def __init__(self, cname, fn, ptypes, rtype, fuels):
-        self.cname, self.fn, self.rtype, self.fuels = cname, fn, rtype, fuels
+    def __init__(self, cname, fn, ptypes, rtype, fuels, checked):
+        self.cname, self.fn, self.rtype, self.fuels, self.checked = cname, fn, rtype, fuels, checked
         self.types = dict(ptypes)
         self.params = [p for p, _ in ptypes]
-        self.aux = []          # lifted loop definitions (strings)
+        self.aux = []
         self.nloops = 0
         self.nwhile = 0
         self.generic = any(t in ("T", "LT") for _, t in ptypes)
+        if checked:
+            self.types["ok__"] = "B"
 
     # ---------------- expressions
     def ty(self, e):
+        if is_cond(e):
+            return "B"
         if isinstance(e, ast.Name):
             if e.id not in self.types:
                 raise Unsupported("unknown variable %s" % e.id)
             return self.types[e.id]
         if isinstance(e, ast.Subscript):
             t = self.ty(e.value)
+            if t not in ("LT", "LZ"):
+                raise Unsupported("subscript of non-array")
             return {"LT": "T", "LZ": "Z"}[t]
         if isinstance(e, ast.Constant):
-            if isinstance(e.value, bool) or not isinstance(e.value, int):
+            if not isinstance(e.value, int):
                 raise Unsupported("constant %r" % (e.value,))
             return "Z"
         if isinstance(e, ast.BinOp):
             a, b = self.ty(e.left), self.ty(e.right)
-            if a != b:
-                raise Unsupported("mixed arithmetic")
+            if a != b or a not in ("Z", "T"):
+                raise Unsupported("mixed arithmetic in %s" % ast.unparse(e))
             return a
         if isinstance(e, ast.UnaryOp) and isinstance(e.op, ast.USub):
             return self.ty(e.operand)
@@ -93,12 +132,14 @@ class Tr:
                 return CALLABLE[f][1]
         if isinstance(e, ast.Attribute) and ast.unparse(e) == "np.iinfo(np.intp).max":
             return "Z"
-        raise Unsupported("expression %s" % ast.dump(e)[:80])
+        raise Unsupported("expression %s" % ast.unparse(e)[:80])
 
     def callname(self, e):
         return e.func.id if isinstance(e.func, ast.Name) else ast.unparse(e.func)
 
     def ex(self, e):
+        if is_cond(e):
+            return self.cond(e)
         if isinstance(e, ast.Name):
             self.ty(e)
             return e.id
@@ -109,13 +150,13 @@ class Tr:
             return "9223372036854775807"
         if isinstance(e, ast.UnaryOp) and isinstance(e.op, ast.USub):
             if self.ty(e.operand) != "Z":
-                raise Unsupported("float negation")
+                raise Unsupported("element negation")
             return "(- %s)" % self.ex(e.operand)
         if isinstance(e, ast.Subscript):
             t = self.ty(e.value)
             idx = e.slice
             if self.ty(idx) != "Z":
-                raise Unsupported("index type")
+                raise Unsupported("index type in %s" % ast.unparse(e))
             if isinstance(idx, ast.UnaryOp) or (isinstance(idx, ast.Constant) and idx.value < 0):
                 raise Unsupported("negative index")
             d = "nzero" if t == "LT" else "0"
@@ -143,47 +184,95 @@ class Tr:
         raise Unsupported("expression %s" % ast.unparse(e))
 
     def cond(self, e):
+        if isinstance(e, ast.Constant) and isinstance(e.value, bool):
+            return "true" if e.value else "false"
         if isinstance(e, ast.BoolOp):
             op = "||" if isinstance(e.op, ast.Or) else "&&"
             return "(" + (" %s " % op).join(self.cond(v) for v in e.values) + ")"
         if isinstance(e, ast.UnaryOp) and isinstance(e.op, ast.Not):
             return "(negb %s)" % self.cond(e.operand)
+        if isinstance(e, ast.Name) and self.ty(e) == "B":
+            return e.id
         if isinstance(e, ast.Compare) and len(e.ops) == 1:
             a, b = e.left, e.comparators[0]
             ta, tb = self.ty(a), self.ty(b)
             if ta != tb:
-                raise Unsupported("mixed comparison")
+                raise Unsupported("mixed comparison %s" % ast.unparse(e))
             sa, sb = self.ex(a), self.ex(b)
             o = type(e.ops[0])
             if ta == "Z":
                 m = {ast.Lt: "(%s <? %s)", ast.LtE: "(%s <=? %s)", ast.Gt: "(%s >? %s)", ast.GtE: "(%s >=? %s)",
                      ast.Eq: "(%s =? %s)", ast.NotEq: "(negb (%s =? %s))"}
                 return m[o] % (sa, sb)
-            m = {ast.Lt: "(nltb %s %s)", ast.LtE: "(nleb %s %s)", ast.Gt: "(nltb %s %s)", ast.GtE: "(nleb %s %s)",
-                 ast.Eq: "(neqb %s %s)"}
-            if o in (ast.Gt, ast.GtE):
-                sa, sb = sb, sa
-            return m[o] % (sa, sb)
+            if ta == "T":
+                m = {ast.Lt: "(nltb %s %s)", ast.LtE: "(nleb %s %s)", ast.Gt: "(nltb %s %s)", ast.GtE: "(nleb %s %s)",
+                     ast.Eq: "(neqb %s %s)"}
+                if o not in m:
+                    raise Unsupported("element comparison %s" % ast.unparse(e))
+                if o in (ast.Gt, ast.GtE):
+                    sa, sb = sb, sa
+                return m[o] % (sa, sb)
         raise Unsupported("condition %s" % ast.unparse(e))
+
+    def reads_ok(self, e):
+        """Coq bool: every array read performed when evaluating e is in bounds (short-circuit aware).
+        Returns None when e performs no read."""
+        if isinstance(e, ast.BoolOp):
+            parts = [(self.reads_ok(v), self.cond(v)) for v in e.values]
+            acc = None
+            for okv, cv in reversed(parts):
+                if acc is None:
+                    acc = okv
+                else:
+                    guard = ("if %s then %s else true" if isinstance(e.op, ast.And) else "if %s then true else %s") % (cv, acc)
+                    acc = "(%s && (%s))" % (okv, guard) if okv else "(%s)" % guard
+            return acc
+        oks = []
+        if isinstance(e, ast.Subscript):
+            oks.append("inb %s %s" % (self.ex(e.slice), self.ex(e.value)))
+        for ch in ast.iter_child_nodes(e):
+            if isinstance(ch, ast.expr):
+                r = self.reads_ok(ch)
+                if r:
+                    oks.append(r)
+        if not oks:
+            return None
+        return "(" + " && ".join(oks) + ")"
+
+    def guard(self, exprs, body_txt):
+        """prefix body_txt with the ok__ update for the reads in exprs (checked mode)"""
+        if not self.checked:
+            return body_txt
+        oks = [r for r in (self.reads_ok(x) for x in exprs) if r]
+        if not oks:
+            return body_txt
+        return "let ok__ := ok__ && %s in\n%s" % (" && ".join(oks), body_txt)
 
     # ---------------- statements
     def assigned(self, stmts):
         out = []
+
+        def add(v):
+            if v not in out:
+                out.append(v)
         for s in stmts:
             for n in ast.walk(s):
                 if isinstance(n, (ast.Assign, ast.AugAssign)):
                     tgts = n.targets if isinstance(n, ast.Assign) else [n.target]
                     for t in tgts:
-                        if not isinstance(t, ast.Name):
+                        if isinstance(t, ast.Name):
+                            add(t.id)
+                        elif isinstance(t, ast.Subscript) and isinstance(t.value, ast.Name):
+                            add(t.value.id)
+                        else:
                             raise Unsupported("assignment target %s" % ast.unparse(t))
-                        if t.id not in out:
-                            out.append(t.id)
-                if isinstance(n, ast.For) and isinstance(n.target, ast.Name) and n.target.id not in out:
-                    out.append(n.target.id)
+                if isinstance(n, ast.For) and isinstance(n.target, ast.Name):
+                    add(n.target.id)
+        if self.checked:
+            add("ok__")
         return out
 
     def terminates(self, stmts):
-        """every path through stmts ends in return/break/continue"""
         if not stmts:
             return False
         s = stmts[-1]
@@ -203,50 +292,96 @@ class Tr:
         return names[0] if len(names) == 1 else "'(" + ", ".join(names) + ")"
 
     def stmts(self, body, k):
-        """k = dict(end=..., brk=..., cont=..., ret=fmt) continuation strings"""
         if not body:
             if k["end"] is None:
                 raise Unsupported("control reaches end of function without return")
             return k["end"]()
         s, rest = body[0], body[1:]
         if isinstance(s, ast.Return):
-            return k["ret"](self.ex(s.value))
+            if s.value is None:
+                if k["end_proc"] is None:
+                    raise Unsupported("bare return")
+                return k["end_proc"]()
+            if self.rtype is None or self.ty(s.value) != self.rtype:
+                raise Unsupported("return type of %s" % ast.unparse(s))
+            return self.guard([s.value], k["ret"](self.ex(s.value)))
         if isinstance(s, ast.Break):
             return k["brk"]()
         if isinstance(s, ast.Continue):
             return k["cont"]()
-        if isinstance(s, ast.Assign):
-            if len(s.targets) != 1 or not isinstance(s.targets[0], ast.Name):
-                raise Unsupported("assignment %s" % ast.unparse(s))
-            name = s.targets[0].id
-            t = self.ty(s.value)
-            if name in self.types and self.types[name] != t:
-                raise Unsupported("variable %s changes type" % name)
-            val = self.ex(s.value)
-            self.types[name] = t
-            return "let %s := %s in\n%s" % (name, val, self.stmts(rest, k))
-        if isinstance(s, ast.AugAssign):
-            if not isinstance(s.target, ast.Name):
-                raise Unsupported("augmented assignment to %s" % ast.unparse(s.target))
-            fake = ast.BinOp(left=ast.Name(id=s.target.id, ctx=ast.Load()), op=s.op, right=s.value)
-            val = self.ex(fake)
-            return "let %s := %s in\n%s" % (s.target.id, val, self.stmts(rest, k))
+        if isinstance(s, (ast.Assign, ast.AugAssign)):
+            tgt = s.targets[0] if isinstance(s, ast.Assign) else s.target
+            if isinstance(s, ast.Assign) and len(s.targets) != 1:
+                raise Unsupported("multiple assignment")
+            if isinstance(s, ast.AugAssign):
+                value = ast.BinOp(left=tgt, op=s.op, right=s.value)
+            else:
+                value = s.value
+            if isinstance(tgt, ast.Name):
+                t = self.ty(value)
+                if tgt.id in self.types and self.types[tgt.id] != t:
+                    raise Unsupported("variable %s changes type" % tgt.id)
+                if tgt.id in self.params and self.types[tgt.id] in ("LT", "LZ"):
+                    raise Unsupported("rebinding array parameter %s" % tgt.id)
+                val = self.ex(value)
+                txt_guard = [value]
+                self.types[tgt.id] = t
+                return self.guard(txt_guard, "let %s := %s in\n%s" % (tgt.id, val, self.stmts(rest, k)))
+            if isinstance(tgt, ast.Subscript) and isinstance(tgt.value, ast.Name):
+                arr = tgt.value.id
+                at = self.ty(tgt.value)
+                if at not in ("LT", "LZ") or self.ty(tgt.slice) != "Z" or self.ty(value) != {"LT": "T", "LZ": "Z"}[at]:
+                    raise Unsupported("array store %s" % ast.unparse(s))
+                val = self.ex(value)
+                idx = self.ex(tgt.slice)
+                inner = "let %s := upd_nth %s (Z.to_nat %s) %s in\n%s" % (arr, arr, idx, val, self.stmts(rest, k))
+                if self.checked:
+                    oks = [r for r in (self.reads_ok(value), self.reads_ok(tgt.slice)) if r] + ["inb %s %s" % (idx, arr)]
+                    return "let ok__ := ok__ && %s in\n%s" % (" && ".join(oks), inner)
+                return inner
+            raise Unsupported("assignment %s" % ast.unparse(s))
         if isinstance(s, ast.If):
             c = self.cond(s.test)
             if self.terminates(s.body):
-                return "if %s then\n%s\nelse\n%s" % (c, self.stmts(s.body, k), self.stmts(list(s.orelse) + rest, k))
+                txt = "if %s then\n%s\nelse\n%s" % (c, self.stmts(s.body, k), self.stmts(list(s.orelse) + rest, k))
+                return self.guard([s.test], txt)
             if s.orelse and self.terminates(s.orelse):
-                return "if %s then\n%s\nelse\n%s" % (c, self.stmts(list(s.body) + rest, k), self.stmts(s.orelse, k))
+                txt = "if %s then\n%s\nelse\n%s" % (c, self.stmts(list(s.body) + rest, k), self.stmts(s.orelse, k))
+                return self.guard([s.test], txt)
             if self.has_exit(s.body) or self.has_exit(s.orelse):
-                raise Unsupported("partial exit inside if")
+                # some path exits, some falls through: continue with `rest` inside both branches
+                pre = dict(self.types)
+                a = self.stmts(list(s.body) + rest, k)
+                self.types = dict(pre)
+                b = self.stmts(list(s.orelse) + rest, k)
+                self.types = dict(pre)
+                return self.guard([s.test], "if %s then\n%s\nelse\n%s" % (c, a, b))
             mod = self.assigned(list(s.body) + list(s.orelse))
-            for m in mod:
-                if m not in self.types:
-                    raise Unsupported("variable %s first assigned inside a branch" % m)
+            pre = dict(self.types)
+            snap = (len(self.aux), self.nloops, self.nwhile)
             endk = dict(k, end=lambda: self.tuple_of(mod))
             a = self.stmts(s.body, endk)
-            b = self.stmts(s.orelse, endk) if s.orelse else self.tuple_of(mod)
-            return "let %s := (if %s then\n%s\nelse\n%s) in\n%s" % (self.pat_of(mod), c, a, b, self.stmts(rest, k))
+            types_a = dict(self.types)
+            self.types = dict(pre)
+            b = self.stmts(s.orelse, endk) if s.orelse else None
+            # a variable first assigned inside a branch is usable afterwards only if it existed before
+            new_in_branch = [m for m in mod if m not in pre]
+            if new_in_branch:
+                # iteration-local temporaries: drop them from the merged tuple
+                mod = [m for m in mod if m in pre]
+                self.types = dict(pre)
+                del self.aux[snap[0]:]
+                self.nloops, self.nwhile = snap[1], snap[2]
+                endk = dict(k, end=lambda: self.tuple_of(mod) if mod else "tt")
+                a = self.stmts(s.body, endk)
+                self.types = dict(pre)
+                b = self.stmts(s.orelse, endk) if s.orelse else None
+            self.types = dict(pre)
+            if b is None:
+                b = self.tuple_of(mod) if mod else "tt"
+            pat = self.pat_of(mod) if mod else "_"
+            txt = "let %s := (if %s then\n%s\nelse\n%s) in\n%s" % (pat, c, a, b, self.stmts(rest, k))
+            return self.guard([s.test], txt)
         if isinstance(s, (ast.For, ast.While)):
             return self.loop(s, rest, k)
         if isinstance(s, ast.Expr) and isinstance(s.value, ast.Constant):
@@ -260,10 +395,12 @@ class Tr:
         self.nloops += 1
         lname = "%s_loop%d" % (self.cname, idx)
         is_for = isinstance(s, ast.For)
+        pre_guard = []
         if is_for:
             if not (isinstance(s.iter, ast.Call) and self.callname(s.iter) == "range" and isinstance(s.target, ast.Name)):
                 raise Unsupported("for loop over %s" % ast.unparse(s.iter))
             args = s.iter.args
+            pre_guard = list(args)
             if len(args) == 1:
                 lo, hi = "0", self.ex(args[0])
             elif len(args) == 2:
@@ -271,6 +408,8 @@ class Tr:
             else:
                 raise Unsupported("range with step")
             ivar = s.target.id
+            if ivar in self.types and self.types[ivar] != "Z":
+                raise Unsupported("loop variable type")
             self.types[ivar] = "Z"
             fuel = "(Z.to_nat (%s - %s))" % (hi, lo)
         else:
@@ -279,33 +418,29 @@ class Tr:
             fuel = "(%s)" % self.fuels[self.nwhile]
             self.nwhile += 1
             ivar = None
-        # carried = variables assigned in the body that exist before the loop; variables first
-        # assigned inside the body are iteration-local temporaries (a use after the loop fails closed)
-        carried = [v for v in self.assigned(s.body) if v != ivar and v in self.types]
-        local_tmp = [v for v in self.assigned(s.body) if v != ivar and v not in self.types]
+        pre = dict(self.types)
+        carried = [v for v in self.assigned(s.body) if v != ivar and v in pre]
         has_ret = any(isinstance(n, ast.Return) for st in s.body for n in ast.walk(st))
-        # free variables of the loop: every typed variable known so far (simple and robust)
-        known = [v for v in self.types if v not in carried and v != ivar]
-        free = [v for v in known if any(isinstance(n, ast.Name) and n.id == v for st in ([s.test] if not is_for else []) + list(s.body) for n in ast.walk(st))]
+        known = [v for v in pre if v not in carried and v != ivar]
+        used = set(n.id for st in ([s.test] if not is_for else []) + list(s.body) for n in ast.walk(st) if isinstance(n, ast.Name))
+        free = [v for v in known if v in used]
         ctuple = self.tuple_of(carried) if carried else "tt"
-
-        def tyof(v):
-            return {"Z": "Z", "T": "T", "LT": "list T", "LZ": "list Z"}[self.types[v]]
-        binders = " ".join("(%s : %s)" % (v, tyof(v)) for v in ([ivar] if ivar else []) + carried + free)
-        ctype = " * ".join(tyof(v) for v in carried) if carried else "unit"
-        rty = "(Z + (%s))%%type" % ctype if has_ret else "(%s)%%type" % ctype
+        binders = " ".join("(%s : %s)" % (v, COQTY[pre[v]]) for v in ([ivar] if ivar else []) + carried + free)
+        ctype = " * ".join(COQTY[pre[v]] for v in carried) if carried else "unit"
+        RT = self.result_type()
+        rty = "((%s) + (%s))%%type" % (RT, ctype) if has_ret else "(%s)%%type" % ctype
         wrap_inr = (lambda x: "inr %s" % x) if has_ret else (lambda x: x)
         rec_args = " ".join(([("(%s + 1)" % ivar)] if ivar else []) + carried + free)
 
         def cont():
             return "%s fuel' %s" % (lname, rec_args)
-        bodyk = dict(end=cont, cont=cont, brk=lambda: wrap_inr(ctuple),
-                     ret=(lambda e: "inl %s" % e))
-        saved_types = dict(self.types)
+        bodyk = dict(end=cont, cont=cont, brk=lambda: wrap_inr(ctuple), end_proc=None,
+                     ret=(lambda e: "inl %s" % self.wrap_result(e)), prop=(lambda r: "inl %s" % r))
         btxt = self.stmts(list(s.body), bodyk)
         if not is_for:
-            btxt = "if %s then\n%s\nelse %s" % (self.cond(s.test), btxt, wrap_inr(ctuple))
-        self.types = dict(saved_types)   # temporaries of the body go out of scope
+            self.types = dict(pre)
+            btxt = self.guard([s.test], "if %s then\n%s\nelse %s" % (self.cond(s.test), btxt, wrap_inr(ctuple)))
+        self.types = dict(pre)   # temporaries of the body go out of scope
         ctx = "{T : Type} `{Num T} " if self.generic else ""
         self.aux.append("Fixpoint %s %s(fuel : nat) %s : %s :=\n  match fuel with\n  | O => %s\n  | S fuel' =>\n%s\n  end." %
                         (lname, ctx, binders, rty, wrap_inr(ctuple), btxt))
@@ -313,61 +448,80 @@ class Tr:
         after = self.stmts(rest, k)
         pat = self.pat_of(carried) if carried else "_"
         if has_ret:
-            return "match %s with\n| inl r__ => %s\n| inr %s => %s\nend" % (call, k["ret"]("r__"), pat if carried else "_", after)
-        return "let %s := %s in\n%s" % (pat, call, after)
+            txt = "match %s with\n| inl r__ => %s\n| inr %s => %s\nend" % (call, k["prop"]("r__"), pat, after)
+        else:
+            txt = "let %s := %s in\n%s" % (pat, call, after)
+        return self.guard(pre_guard, txt)
+
+    def result_type(self):
+        if self.rtype is None:
+            base = " * ".join(COQTY[self.types[v]] for v in self.outs) if self.outs else "unit"
+        else:
+            base = COQTY[self.rtype]
+        return "%s * bool" % base if self.checked else base
+
+    def wrap_result(self, e):
+        return "(%s, ok__)" % e if self.checked else e
 
     def translate(self):
         body = strip_doc(self.fn.body)
         pnames = [a.arg for a in self.fn.args.args]
         if pnames != self.params:
             raise Unsupported("parameters of %s are %s, expected %s" % (self.fn.name, pnames, self.params))
-        k = dict(end=None, brk=lambda: (_ for _ in ()).throw(Unsupported("break outside loop")),
-                 cont=lambda: (_ for _ in ()).throw(Unsupported("continue outside loop")), ret=lambda e: e)
-        txt = self.stmts(body, k)
+        # procedures return the arrays they store into (in parameter order)
+        stored = [v for v in self.assigned(body) if v in self.params and self.types[v] in ("LT", "LZ")]
+        self.outs = [p for p in self.params if p in stored]
 
-        def tyof(t):
-            return {"Z": "Z", "T": "T", "LT": "list T", "LZ": "list Z"}[t]
-        ptypes = dict((p, self.types[p]) for p in self.params)
-        binders = " ".join("(%s : %s)" % (p, tyof(ptypes[p])) for p in self.params)
+        def end_proc():
+            return self.wrap_result(self.tuple_of(self.outs) if self.outs else "tt")
+
+        def no(what):
+            def f(*a):
+                raise Unsupported(what + " outside loop")
+            return f
+        k = dict(end=(end_proc if self.rtype is None else None), end_proc=(end_proc if self.rtype is None else None),
+                 brk=no("break"), cont=no("continue"), ret=self.wrap_result, prop=lambda r: r)
+        txt = self.stmts(body, k)
+        if self.checked:
+            txt = "let ok__ := true in\n" + txt
+        binders = " ".join("(%s : %s)" % (p, COQTY[dict(zip(self.params, [self.types[p] for p in self.params]))[p]]) for p in self.params)
         ctx = "{T : Type} `{Num T} " if self.generic else ""
-        main = "Definition %s %s%s : %s :=\n%s." % (self.cname, ctx, binders, tyof(self.rtype), txt)
+        main = "Definition %s %s%s : %s :=\n%s." % (self.cname, ctx, binders, self.result_type(), txt)
         return "\n\n".join(self.aux + [main])
 
 
 def generate():
     parts = ["(* GENERATED by harness/py2coq.py from the current source in %s -- do not edit. *)" % REPO,
              "From Coq Require Import ZArith List Bool.", "From QE Require Import Base.Num.",
-             "Import ListNotations.", "Open Scope Z_scope.", ""]
-    for cname, file, pyname, ptypes, rtype, fuels in KERNELS:
+             "Import ListNotations.", "Open Scope Z_scope.", "", PRELUDE]
+    for cname, file, pyname, ptypes, rtype, fuels, checked in KERNELS:
         src = open(os.path.join(REPO, file)).read()
         fn = find_func(ast.parse(src), pyname)
-        tr = Tr("gen_" + cname, fn, ptypes, rtype, fuels)
-        # calls to previously generated kernels resolve to their generated names
-        parts.append("(* ---- %s :: %s ---- *)" % (file, pyname))
+        tr = Tr("gen_" + cname, fn, ptypes, rtype, fuels, checked)
+        parts.append("(* ---- %s :: %s%s ---- *)" % (file, pyname, "  [bounds-checked: returns (result, ok__)]" if checked else ""))
         parts.append(tr.translate())
         parts.append("")
-        CALLABLE[pyname] = ("gen_" + cname, rtype)
-        if cname == pyname:
-            CALLABLE[cname] = ("gen_" + cname, rtype)
+        if not checked and rtype is not None:
+            CALLABLE[pyname] = ("gen_" + cname, rtype)
     return "\n".join(parts)
 
 
 def main():
+    CALLABLE.clear()
     try:
         text = generate()
+        rc = 0
     except (Unsupported, OSError, SyntaxError, KeyError) as e:
         # fail closed: the generated file then contains a definition that cannot typecheck
         text = ("(* GENERATED by harness/py2coq.py -- TRANSLATION FAILED: %s *)\n"
                 "Definition translation_failed : True := I I.\n" % (repr(e).replace("*)", "* )"),))
         rc = 2
-    else:
-        rc = 0
     old = open(OUT).read() if os.path.exists(OUT) else None
     if old != text:
         with open(OUT, "w") as f:
             f.write(text)
     if rc:
-        print("py2coq: FAILED (wrote a non-compiling Kernels.v)")
+        print("py2coq: FAILED (wrote a non-compiling Kernels.v): %s" % text.splitlines()[0])
     return rc
 
 
